@@ -18,6 +18,7 @@ IMPORTS = ("From Coq Require Import String.\n"
            "Open Scope string_scope.\nOpen Scope N_scope.\n")
 RAW = ["A", "B", "C"]
 FUEL = 3000
+MAX_TRACE = 250     # hand-offs per run beyond which a case is judged by the oracle only (self-feeding streams grow 3^10)
 FN_DECL = "fn f():\n    emit Out(x: x + 1, k: k)\n"
 
 TRUSTED = [
